@@ -94,7 +94,7 @@ type BatchParams struct {
 
 // AtomCase is a C14 case.
 type AtomCase struct {
-	// Mode: "poison", "dup", "interleave", "kill", "batch".
+	// Mode: "poison", "dup", "interleave", "kill", "batch", "cancel".
 	Mode string
 	Arm  string
 	Seed uint64
@@ -112,6 +112,8 @@ type AtomCase struct {
 	Big *BigParams `json:",omitempty"`
 	// batch
 	Batch *BatchParams `json:",omitempty"`
+	// cancel
+	Cancel *CancelParams `json:",omitempty"`
 }
 
 var poisonKindNames = map[int]string{
@@ -129,8 +131,10 @@ func genAtomCase(t *rapid.T) AtomCase {
 		switch u := store.Uniform(t, 100*killOneIn, "mode"); {
 		case u < 100:
 			mode = "kill"
-		case u < 62*killOneIn:
+		case u < 59*killOneIn:
 			mode = "poison"
+		case u < 62*killOneIn:
+			mode = "cancel"
 		case u < 76*killOneIn:
 			mode = "dup"
 		case u >= 96*killOneIn:
@@ -229,6 +233,12 @@ func genAtomCase(t *rapid.T) AtomCase {
 					c.Arm = store.ArmSqliteMem
 				}
 			}
+		}
+	case "cancel":
+		c.Cancel = genCancelParams(t)
+		c.Arm = store.ArmSqliteMem
+		if c.Cancel.File {
+			c.Arm = store.ArmSqliteFile
 		}
 	case "batch":
 		c.Arm = store.ArmCosmosFake
@@ -960,6 +970,8 @@ func checkAtomCase(c AtomCase) (res vprop.Result) {
 		r.kill(c)
 	case "batch":
 		r.batch(c)
+	case "cancel":
+		r.cancel(c)
 	default:
 		r.skip("malformed_case")
 	}
